@@ -51,9 +51,36 @@ Proof.
   rewrite <- E. auto.
 Qed.
 
+(* ---- Abandon / Kill: senders of a vanished receiver become inert ---- *)
+Definition inert_b (src : N) (b : barrier) : barrier := set_fifo V b (map (inert_entry V src) (b_fifo b)).
+
+Lemma inert_regs_ids src (l : list barrier) : map b_id (map (inert_b src) l) = map b_id l.
+Proof. rewrite map_map. reflexivity. Qed.
+
+Lemma inert_handle_id src (h : handle V) : h_id (inert_handle V src h) = h_id h.
+Proof. unfold inert_handle. destruct (h_rel h) as [k|]; [|reflexivity]. destruct (k =? src); reflexivity. Qed.
+
+Lemma inert_handles_ids src (l : list (handle V)) : map h_id (map (inert_handle V src) l) = map h_id l.
+Proof. rewrite map_map. apply map_ext. intros h. apply inert_handle_id. Qed.
+
+Lemma get_barrier_inert src b (l : list barrier) :
+  get_barrier V b (map (inert_b src) l) = option_map (inert_b src) (get_barrier V b l).
+Proof. induction l as [|x l IH]; cbn; [reflexivity|]. destruct (b_id x =? b); [reflexivity|exact IH]. Qed.
+
+Lemma regok_inert s src x : RegOk s -> RegOk (inert V s src x).
+Proof.
+  intros [A B C D]. constructor; cbn.
+  - intros y Hy. apply in_map_iff in Hy as (z & <- & Hz). cbn. auto.
+  - change (map (fun b => set_fifo V b (map (inert_entry V src) (b_fifo b))) (regs s)) with (map (inert_b src) (regs s)).
+    now rewrite inert_regs_ids.
+  - intros h Hh. apply in_map_iff in Hh as (z & <- & Hz). rewrite inert_handle_id. auto.
+  - now rewrite inert_handles_ids.
+Qed.
+
 Lemma step_regok s e : RegOk s -> RegOk (fst (step V s e)).
 Proof.
-  intros OK. pose proof OK as [A B C D]. destruct e as [r c|src v|src v|b|h|b]; cbn.
+  intros OK. pose proof OK as [A B C D]. destruct e as [r c|src v|src v|b|h|b|k|k]; cbn;
+    [| | | | | |destruct (sget (srcs s) k); try exact OK; now apply regok_inert|destruct (sget (srcs s) k); try exact OK; now apply regok_inert].
   - constructor; cbn; auto.
     + intros x Hx. apply in_app_or in Hx as [Hx|[<-|[]]]; [apply A in Hx; lia|cbn; lia].
     + rewrite map_app. cbn. apply NoDup_app_iff. split; [exact B|]. split; [repeat constructor; auto|].
@@ -230,14 +257,17 @@ Definition releases (s : state) (src : N) (e : ev) : bool :=
   | DropBarrier b => match get_barrier V b (regs s) with
                      | Some x => existsb (N.eqb src) (rels V (b_fifo x))
                      | None => false end
+  | Abandon k => k =? src
   | _ => false
   end.
+(* the source itself is dropped *)
+Definition kills (src : N) (e : ev) : bool := match e with Kill k => k =? src | _ => false end.
 
 Lemma stays_suspended s src e :
-  sget (srcs s) src = Suspended -> releases s src e = false ->
+  sget (srcs s) src = Suspended -> releases s src e = false -> kills src e = false ->
   sget (srcs (fst (step V s e))) src = Suspended.
 Proof.
-  intros S R. destruct e as [r c|k v|k v|b|h|b]; cbn -[sset sget rels] in *.
+  intros S R Kl. destruct e as [r c|k v|k v|b|h|b|k|k]; cbn -[sset sget rels] in *.
   - exact S.
   - destruct (sget (srcs s) k) eqn:K; try exact S.
     destruct (first_match V (regs s) v) as [x|]; [|exact S].
@@ -253,15 +283,18 @@ Proof.
   - destruct (get_handle V h (handles s)) as [x|]; [|exact S]. cbn -[sset sget rels].
     destruct (h_rel x) as [k|]; [|exact S]. rewrite sget_sset, R. exact S.
   - destruct (get_barrier V b (regs s)) as [x|]; [|exact S]. cbn -[sset sget rels]. now rewrite sget_release_all, R.
+  - destruct (sget (srcs s) k); try exact S. cbn -[sset sget rels]. now rewrite sget_sset, R.
+  - destruct (sget (srcs s) k); try exact S; cbn -[sset sget rels]; now rewrite sget_sset, Kl.
 Qed.
 
 Lemma release_runs s src e :
-  releases s src e = true -> sget (srcs (fst (step V s e))) src = Running.
+  sget (srcs s) src = Suspended -> releases s src e = true -> sget (srcs (fst (step V s e))) src = Running.
 Proof.
-  intros R. destruct e as [r c|k v|k v|b|h|b]; cbn -[sset sget rels] in *; try discriminate.
+  intros S R. destruct e as [r c|k v|k v|b|h|b|k|k]; cbn -[sset sget rels] in *; try discriminate.
   - destruct (get_handle V h (handles s)) as [x|]; [|discriminate]. cbn -[sset sget rels].
     destruct (h_rel x) as [k|]; [|discriminate]. now rewrite sget_sset, R.
   - destruct (get_barrier V b (regs s)) as [x|]; [|discriminate]. cbn -[sset sget rels]. now rewrite sget_release_all, R.
+  - apply N.eqb_eq in R. subst k. rewrite S. cbn -[sset sget rels]. now rewrite sget_sset, N.eqb_refl.
 Qed.
 
 (* ------------------------------------------------------------------ *)
@@ -359,9 +392,48 @@ Proof.
   - intros H. exists k. split; [exact H|apply N.eqb_refl].
 Qed.
 
+Definition ne (k j : N) : bool := negb (j =? k).
+
+Lemma rels_inert k f : rels V (map (inert_entry V k) f) = filter (ne k) (rels V f).
+Proof.
+  induction f as [|e f IH]; [reflexivity|]. unfold rels in *. cbn. rewrite filter_app, <- IH. f_equal.
+  unfold inert_entry, ne. destruct (e_rel e) as [j|] eqn:E; cbn; [|now rewrite E].
+  destruct (j =? k) eqn:Q; cbn; [reflexivity|now rewrite E].
+Qed.
+
+Lemma flat_inert k (l : list barrier) :
+  flat_map (fun x => rels V (b_fifo x)) (map (inert_b k) l) = filter (ne k) (flat_map (fun x => rels V (b_fifo x)) l).
+Proof.
+  induction l as [|x l IH]; [reflexivity|]. cbn -[rels]. rewrite filter_app, <- IH. f_equal. apply rels_inert.
+Qed.
+
+Lemma hrels_inert k hs : hrels (map (inert_handle V k) hs) = filter (ne k) (hrels hs).
+Proof.
+  induction hs as [|h hs IH]; [reflexivity|]. unfold hrels in *. cbn. rewrite filter_app, <- IH. f_equal.
+  unfold inert_handle, ne. destruct (h_rel h) as [j|] eqn:E; cbn; [|now rewrite E].
+  destruct (j =? k) eqn:Q; cbn; [reflexivity|now rewrite E].
+Qed.
+
+Lemma tokens_inert s k x : tokens (inert V s k x) = filter (ne k) (tokens s).
+Proof.
+  unfold tokens. cbn -[rels]. rewrite filter_app, <- hrels_inert. f_equal. apply flat_inert.
+Qed.
+
+Lemma tokinv_inert s k x : x <> Suspended -> TokInv s -> TokInv (inert V s k x).
+Proof.
+  intros Hx T src S. rewrite tokens_inert. cbn -[sset sget] in S. rewrite sget_sset in S.
+  destruct (k =? src) eqn:E; [congruence|]. apply filter_In. split; [now apply T|].
+  unfold ne. now rewrite N.eqb_sym, E.
+Qed.
+
 Lemma step_tokinv s e : RegOk s -> TokInv s -> TokInv (fst (step V s e)).
 Proof.
-  intros OK T. unfold TokInv, tokens in *. destruct e as [r c|k v|k v|b|h|b]; cbn -[sset sget rels].
+  intros OK T.
+  assert (Van : forall k, TokInv (fst (step V s (Abandon k))) /\ TokInv (fst (step V s (Kill k)))).
+  { intros k. split; cbn -[sset sget rels]; destruct (sget (srcs s) k); try exact T;
+      (apply tokinv_inert; [discriminate|exact T]). }
+  destruct e as [r c|k v|k v|b|h|b|k|k]; [| | | | | |apply Van|apply Van];
+    unfold TokInv, tokens in *; cbn -[sset sget rels].
   - intros src S. apply T in S. apply in_app_or in S as [S|S]; apply in_or_app; [left|now right].
     rewrite flat_map_app. apply in_or_app. now left.
   - destruct (sget (srcs s) k) eqn:K; try exact T.
@@ -510,7 +582,7 @@ Proof.
     apply spec_match_in in M.
     assert (b' =? b = false) by (apply N.eqb_neq; intro; subst; contradiction).
     destruct r; [now rewrite H| |reflexivity]. destruct c; [reflexivity|now rewrite H]. }
-  destruct e as [r c|k v|k v|b'|h|b']; try (destruct o; auto; rewrite Hit; cbn; auto); auto.
+  destruct e as [r c|k v|k v|b'|h|b'|k0|k0]; try (destruct o; auto; rewrite Hit; cbn; auto); auto.
   - apply IH; [|lia]. rewrite map_app. cbn. intro H. apply in_app_or in H as [H|[H|[]]]; [contradiction|lia].
   - apply IH; [|exact Hb]. intro H. apply Hn. unfold lv_drop in H.
     apply in_map_iff in H as (x & E & Hx). apply filter_In in Hx as [Hx _]. apply in_map_iff. eauto.
@@ -520,7 +592,13 @@ Lemma step_dead b s e :
   b < nbid s -> get_barrier V b (regs s) = None ->
   b < nbid (fst (step V s e)) /\ get_barrier V b (regs (fst (step V s e))) = None.
 Proof.
-  intros L G. destruct e as [r c|k v|k v|b'|h|b']; cbn -[sset sget rels].
+  intros L G. destruct e as [r c|k v|k v|b'|h|b'|k|k]; cbn -[sset sget rels];
+    [| | | | | |destruct (sget (srcs s) k); cbn -[sset sget rels]; auto;
+                change (map (fun b0 => set_fifo V b0 (map (inert_entry V k) (b_fifo b0))) (regs s)) with (map (inert_b k) (regs s));
+                rewrite get_barrier_inert, G; auto
+     |destruct (sget (srcs s) k); cbn -[sset sget rels]; auto;
+      change (map (fun b0 => set_fifo V b0 (map (inert_entry V k) (b_fifo b0))) (regs s)) with (map (inert_b k) (regs s));
+      rewrite get_barrier_inert, G; auto].
   - split; [lia|]. rewrite get_barrier_app, G. cbn. destruct (nbid s =? b) eqn:E; [|reflexivity]. apply N.eqb_eq in E. lia.
   - destruct (sget (srcs s) k); cbn -[sset sget rels]; auto.
     destruct (first_match V (regs s) v) as [x|]; cbn -[sset sget rels]; auto.
@@ -559,6 +637,19 @@ Proof.
   unfold final. cbn. destruct (step V s e) as [s1 o]. cbn. destruct (run V s1 es). reflexivity.
 Qed.
 
+Lemma info_inert k (l : list barrier) : map info (map (inert_b k) l) = map info l.
+Proof. rewrite map_map. reflexivity. Qed.
+
+Lemma fifo_l_inert k b (l : list barrier) : fifo_l b (map (inert_b k) l) = fifo_l b l.
+Proof.
+  unfold fifo_l. rewrite get_barrier_inert. destruct (get_barrier V b l) as [x|]; [|reflexivity]. cbn.
+  rewrite map_map. apply map_ext. intros e. unfold tv, inert_entry. destruct (e_rel e) as [j|]; [|reflexivity].
+  destruct (j =? k); reflexivity.
+Qed.
+
+Lemma regs_inert s k x : regs (inert V s k x) = map (inert_b k) (regs s).
+Proof. reflexivity. Qed.
+
 Lemma report_main es : forall s, RegOk s ->
   forall b, exists q,
     waited b (combine es (snd (run V s es))) ++ q =
@@ -581,7 +672,7 @@ Proof.
                         fifo_l b (regs s) ++ expect b (map info (regs s)) (nbid s) ((e, o) :: eos) /\
                         (forall x, get_barrier V b (regs (final s1 es)) = Some x -> q = map tv (b_fifo x))).
     { intros h F W X. exists q'. split; [|exact Fin]. rewrite W, X, Eq, F. now rewrite <- app_assoc. }
-    destruct e as [r c|k v|k v|b'|h|b']; cbn -[sset sget rels] in St.
+    destruct e as [r c|k v|k v|b'|h|b'|k|k]; cbn -[sset sget rels] in St.
     + (* Build *)
       inversion St; subst s1 o. apply (Close []).
       * rewrite app_nil_r. cbn. unfold fifo_l. rewrite get_barrier_app.
@@ -665,6 +756,16 @@ Proof.
         apply negb_true_iff, N.eqb_neq. intro. subst b0.
         apply in_map_iff in Hin as (y & Ey & Hy). inversion Ey; subst.
         exact (get_barrier_none _ _ G y Hy eq_refl).
+    + (* Abandon *)
+      destruct (sget (srcs s) k); inversion St; subst s1 o;
+        try (apply (Close []); [now rewrite app_nil_r|reflexivity|reflexivity]).
+      apply (Close []); [rewrite app_nil_r, regs_inert; apply fifo_l_inert|reflexivity|].
+      cbn [expect app]. now rewrite regs_inert, info_inert.
+    + (* Kill *)
+      destruct (sget (srcs s) k); inversion St; subst s1 o;
+        try (apply (Close []); [now rewrite app_nil_r|reflexivity|reflexivity]);
+        (apply (Close []); [rewrite app_nil_r, regs_inert; apply fifo_l_inert|reflexivity|];
+         cbn [expect app]; now rewrite regs_inert, info_inert).
 Qed.
 
 (* ghost trigger ids are handed out in increasing order: every trigger call
@@ -676,7 +777,8 @@ Proof.
   induction eos as [|[e o] t IH]; intros s lv nb es E tid v H; [contradiction|].
   destruct es as [|e' es']; [discriminate|]. rewrite run_cons in E. cbn [snd combine] in E. inversion E; subst.
   assert (Mono : ntid s <= ntid (fst (step V s e'))).
-  { destruct e' as [r c|k w|k w|b'|h|b']; cbn -[sset sget rels]; try lia.
+  { destruct e' as [r c|k w|k w|b'|h|b'|k|k]; cbn -[sset sget rels]; try lia;
+      [| | | | |destruct (sget (srcs s) k); cbn; lia|destruct (sget (srcs s) k); cbn; lia].
     - destruct (sget (srcs s) k); cbn -[sset sget rels]; try lia.
       destruct (first_match V (regs s) w) as [x|]; cbn -[sset sget rels]; [destruct (b_react x)|]; cbn -[sset sget rels]; lia.
     - destruct (sget (srcs s) k); cbn -[sset sget rels]; try lia.
@@ -686,7 +788,7 @@ Proof.
     - destruct (get_barrier V b' (regs s)); cbn; lia. }
   assert (Rest : forall lv' nb', In (tid, v) (expect b lv' nb' (combine es' (snd (run V (fst (step V s e')) es')))) -> ntid s <= tid).
   { intros lv' nb' Hin. specialize (IH _ lv' nb' es' eq_refl tid v Hin). lia. }
-  cbn in H. destruct e' as [r c|k w|k w|b'|h|b']; eauto.
+  cbn in H. destruct e' as [r c|k w|k w|b'|h|b'|k|k]; eauto.
   - destruct (snd (step V s (Trigger k w))) eqn:O; eauto.
     apply in_app_or in H as [H|H]; [|eauto].
     cbn -[sset sget rels] in O. destruct (sget (srcs s) k); try discriminate.
@@ -710,7 +812,8 @@ Lemma step_tid s e :
   | _ => ntid (fst (step V s e)) = ntid s
   end.
 Proof.
-  destruct e as [r c|k w|k w|b'|h|b']; cbn -[sset sget rels]; try reflexivity.
+  destruct e as [r c|k w|k w|b'|h|b'|k|k]; cbn -[sset sget rels]; try reflexivity;
+    [| | | | |destruct (sget (srcs s) k); reflexivity|destruct (sget (srcs s) k); reflexivity].
   - destruct (sget (srcs s) k); cbn -[sset sget rels]; try reflexivity.
     destruct (first_match V (regs s) w) as [x|]; cbn -[sset sget rels]; [destruct (b_react x)|]; cbn -[sset sget rels]; auto.
   - destruct (sget (srcs s) k); cbn -[sset sget rels]; try reflexivity.
@@ -738,7 +841,7 @@ Proof.
             StronglySorted tid_lt (hit b d tid v ++ expect b lv' nb' (combine es (snd (run V (fst (step V s e)) es))))).
   { intros d tid v lv' nb' E1 E2. unfold hit. destruct d as [b0|]; [|apply IH]. destruct (b0 =? b); [|apply IH].
     cbn. constructor; [apply IH|]. rewrite Forall_forall. intros [t w] Hin. apply Rest in Hin. unfold tid_lt. cbn. lia. }
-  cbn. destruct e as [r c|k w|k w|b'|h|b']; try apply IH.
+  cbn. destruct e as [r c|k w|k w|b'|h|b'|k|k]; try apply IH.
   - destruct (snd (step V s (Trigger k w))) eqn:O; try apply IH. destruct T. now apply Hit.
   - destruct (snd (step V s (TriggerNoop k w))) eqn:O; try apply IH. destruct T. now apply Hit.
 Qed.
@@ -810,9 +913,18 @@ Qed.
 Lemma hrels_app hs h : hrels (hs ++ [h]) = hrels hs ++ hrel h.
 Proof. unfold hrels. rewrite flat_map_app. cbn. now rewrite app_nil_r. Qed.
 
+Lemma tokinv2_inert s k x : TokInv2 s -> TokInv2 (inert V s k x).
+Proof.
+  intros [ND SU]. constructor; rewrite tokens_inert.
+  - now apply NoDup_filter.
+  - intros j Hj. apply filter_In in Hj as [Hj Hn]. cbn -[sset sget]. rewrite sget_sset.
+    unfold ne in Hn. rewrite N.eqb_sym in Hn. destruct (k =? j); [discriminate|]. now apply SU.
+Qed.
+
 Lemma step_tokinv2 s e : RegOk s -> TokInv2 s -> TokInv2 (fst (step V s e)).
 Proof.
-  intros OK T. pose proof T as [ND SU]. destruct e as [r c|k v|k v|b|h|b]; cbn -[sset sget rels].
+  intros OK T. pose proof T as [ND SU]. destruct e as [r c|k v|k v|b|h|b|k|k]; cbn -[sset sget rels];
+    [| | | | | |destruct (sget (srcs s) k); try exact T; now apply tokinv2_inert|destruct (sget (srcs s) k); try exact T; now apply tokinv2_inert].
   - (* Build *)
     apply (tokinv2_perm s); [|reflexivity|exact T]. rewrite !tokens_eq. cbn -[rels].
     rewrite flat_map_app. cbn. rewrite app_nil_r. reflexivity.
@@ -900,5 +1012,56 @@ Qed.
 
 Lemma tokinv2_init : TokInv2 (init V).
 Proof. constructor; cbn; [constructor|intros ? []]. Qed.
+
+
+(* ------------------------------------------------------------------ *)
+(* a source that is gone stays gone; its reports stay queued            *)
+
+Lemma get_handle_in (l : list (handle V)) h x : get_handle V h l = Some x -> In x l.
+Proof.
+  induction l as [|y l IH]; cbn; [discriminate|]. destruct (h_id y =? h).
+  - intros H. inversion H; subst. now left.
+  - intros H. right. auto.
+Qed.
+
+Lemma gone_stays s e src :
+  TokInv2 s -> sget (srcs s) src = Gone -> sget (srcs (fst (step V s e))) src = Gone.
+Proof.
+  intros [ND SU] G.
+  assert (NoTok : ~ In src (tokens s)) by (intro H; apply SU in H; congruence).
+  destruct e as [r c|k v|k v|b|h|b|k|k]; cbn -[sset sget rels].
+  - exact G.
+  - destruct (sget (srcs s) k) eqn:K; try exact G.
+    assert (k <> src) by (intro; subst; congruence).
+    destruct (first_match V (regs s) v) as [x|]; [|exact G].
+    destruct (b_react x); cbn -[sset sget rels]; try exact G; rewrite sget_sset;
+      destruct (k =? src) eqn:E; auto; apply N.eqb_eq in E; congruence.
+  - destruct (sget (srcs s) k) eqn:K; try exact G.
+    assert (k <> src) by (intro; subst; congruence).
+    destruct (first_match V (regs s) v) as [x|]; [|exact G].
+    destruct (b_react x); cbn -[sset sget rels]; try exact G; rewrite sget_sset;
+      destruct (k =? src) eqn:E; auto; apply N.eqb_eq in E; congruence.
+  - destruct (get_barrier V b (regs s)) as [x|]; [|exact G]. destruct (b_fifo x); exact G.
+  - destruct (get_handle V h (handles s)) as [x|] eqn:GH; [|exact G]. cbn -[sset sget rels].
+    destruct (h_rel x) as [j|] eqn:HR; [|exact G]. rewrite sget_sset. destruct (j =? src) eqn:E; [|exact G].
+    apply N.eqb_eq in E. subst j. exfalso. apply NoTok. unfold tokens. apply in_or_app. right.
+    unfold hrels. apply in_flat_map. exists x. split; [eapply get_handle_in; eauto|]. rewrite HR. now left.
+  - destruct (get_barrier V b (regs s)) as [x|] eqn:GB; [|exact G]. cbn -[sset sget rels].
+    rewrite sget_release_all. destruct (existsb (N.eqb src) (rels V (b_fifo x))) eqn:Ex; [|exact G].
+    apply existsb_eqb_in in Ex. exfalso. apply NoTok. unfold tokens. apply in_or_app. left.
+    apply in_flat_map. exists x. split; [|exact Ex]. apply get_barrier_in in GB. tauto.
+  - destruct (sget (srcs s) k) eqn:K; try exact G. cbn -[sset sget rels]. rewrite sget_sset.
+    destruct (k =? src) eqn:E; [|exact G]. apply N.eqb_eq in E. subst. congruence.
+  - destruct (sget (srcs s) k) eqn:K; try exact G; cbn -[sset sget rels]; rewrite sget_sset; destruct (k =? src); try reflexivity; exact G.
+Qed.
+
+(* Kill / Abandon leave every barrier's queued reports (value and trigger id) alone *)
+Lemma vanish_keeps_reports s k b e :
+  e = Kill k \/ e = Abandon k -> fifo_l b (regs (fst (step V s e))) = fifo_l b (regs s).
+Proof.
+  intros [->| ->]; cbn -[sset sget rels inert].
+  - destruct (sget (srcs s) k); try reflexivity; cbn [fst]; rewrite regs_inert; apply fifo_l_inert.
+  - destruct (sget (srcs s) k); try reflexivity. cbn [fst]. rewrite regs_inert. apply fifo_l_inert.
+Qed.
 
 End WithV.
